@@ -354,6 +354,15 @@ def generate(rng, profile='engine'):
         if api == 'expect' and len(op['pats']) == 1 and rng.random() < 0.5:
             op['single'] = True
         force_raw = op.pop('force_raw', False)
+        if api == 'expect' and not force_raw and rng.random() < 0.06:
+            # a pattern compiled from the other string type, with flags of its own
+            cands = [pp for pp in op['pats'] if pp.get('t') == 're' and all(ord(ch) < 128 for ch in pp['p'])]
+            if cands:
+                pp = rng.choice(cands)
+                pp['ot'] = True
+                pp['fl'] = (pp.get('fl') or '') + rng.choice(['', '', 'i'])
+                if not pp['fl']:
+                    pp['fl'] = 'd'          # (DOTALL only: what every compiled pattern of the harness carries)
         if any(pp.get('fl') for pp in op['pats']):
             force_raw = False          # flags travel only with compiled patterns
             if api == 'expect':
@@ -619,7 +628,19 @@ def evaluate(r, clauses=None):
             opd = r.scn['ops'][opk]
             want_flags = re.DOTALL | (re.IGNORECASE if (opk in r.raw_calls and r.scn.get('ignorecase')) else 0)
             mask = re.DOTALL | re.IGNORECASE      # the two flags compile_pattern_list documents
-            for q in plist:
+            pats_ = [pp for pp in opd.get('pats', [])]
+            for qi, q in enumerate(plist):
+                if hasattr(q, 'flags') and qi < len(pats_) and pats_[qi].get('fl') and opk not in r.raw_calls:
+                    # a compiled pattern keeps the flags its author gave it, whatever string type it was compiled from
+                    fl_ = pats_[qi]['fl']
+                    m2 = mask | re.VERBOSE
+                    w2 = re.DOTALL | (re.IGNORECASE if 'i' in fl_ else 0) | (re.VERBOSE if 'x' in fl_ else 0)
+                    if (q.flags & m2) != w2:
+                        if V('C02.pattern_list', 'compiled pattern %r was searched with flags %s, its author compiled it with %s'
+                             % (q.pattern, re.RegexFlag(q.flags & m2), re.RegexFlag(w2)), call):
+                            return out
+                        return out
+                    continue
                 if hasattr(q, 'flags') and (q.flags & mask) != want_flags:
                     if V('C02.pattern_list', 'pattern %r was searched with flags %s, the call asks for %s'
                          % (q.pattern, re.RegexFlag(q.flags & mask), re.RegexFlag(want_flags)), call):
